@@ -133,7 +133,13 @@ def run(chk):
     itc.entry_merge_limit = None
     itc.watch_returns[cq] = []
     itc.watch_results["ellipticcurve:PointJacobi.__init__"] = []
+    itc.watch_results["numbertheory:square_root_mod_prime"] = []
     rc, xc = itc.analyse(cq, [buf, curve], state=State().assume_eq(L - half - 1))
+    # the root: the value returned by the (summarised, pure) square_root_mod_prime call
+    roots = {term_of(v_): v_ for c_ in itc.watch_results["numbertheory:square_root_mod_prime"] if c_[0] == cq for v_, _s in c_[5]}
+    if len(roots) != 1:
+        raise AnalysisError("_from_compressed: expected exactly one square_root_mod_prime result, found %d" % len(roots))
+    beta = list(roots.values())[0]
     escc = sorted({r.exc for r in xc if r.kind != "summary"})
     chk.ob("R08.5", "_from_compressed: only MalformedPointError escapes (SquareRootError mapped)", set(escc) <= {"MalformedPointError"} and bool(escc), loc=cq, key="C08|R08.5|compressed-escape", detail="escape set is %s" % escc)
     stc = itc.watch_returns[cq]
@@ -144,7 +150,6 @@ def run(chk):
     P = Lin.sym(("call", ("attr", ("param", "curve"), "curve"), "p"))
     for v, s in stc:
         pf = prefix_fact(s)
-        beta = s.env.get("beta")
         yv = s.heap_get(v.oid, "<ctor-args>") if isinstance(v, VObj) else None
         if not (isinstance(beta, VInt) and isinstance(yv, VTuple) and len(yv.items) >= 3 and isinstance(yv.items[2], VInt) and pf is not None and len(pf) == 1):
             okp = False
